@@ -89,6 +89,12 @@ def decide(ctx, prop, rows, gens):
             elif not holds or exp is None:
                 st["known_finding_hits"]["KF-C06-embeddedAddl"] = st["known_finding_hits"].get("KF-C06-embeddedAddl", 0) + 1
             continue
+        if r["impl"].startswith("FATAL:"):
+            # the process died on this case (stack overflow, ...): no value, no error, no response
+            r2 = dict(r)
+            r2["impl"] = "the process died: " + core.fatal_text(r["impl"])
+            viol.append(r2)
+            continue
         if "PANIC" in r["impl"] and r["op"] == "jsondec" and prop == "C08":
             # whatever the model says about the document: decoding must return a value or an error
             viol.append(r)
